@@ -122,6 +122,10 @@ def crash_violations(prop, crashes, cases, what='export driver'):
 def log_exceptions(prop, case, res):
     vs = []
     for e in res['log']:
+        if e.get('op') == 'rotate_bad':
+            if e.get('exc') != 'CborOutputException':
+                vs.append(Violation(prop, '%s:failed-rotation-not-reported' % prop, 'rotate_output to a destination that cannot be opened did not throw CborOutputException (%s)' % e.get('exc'), {'case': case, 'op_index': e.get('i')}))
+            continue
         if 'exc' in e:
             vs.append(Violation(prop, '%s:unexpected-exception:%s:%s' % (prop, e.get('op'), e['exc']),
                                 'API call %s threw %s (%s) in a fault-free history' % (e.get('op'), e['exc'], e.get('what', '')),
@@ -138,6 +142,8 @@ def judge_wellformed(prop, case, outs, exp_outputs):
     for o in outs:
         exp = by_id.get(o.id)
         nblocks = len(exp['blocks']) if exp else None
+        if exp is not None and exp.get('void'):
+            continue            # "output" between a rotation that could not open its destination and the next rotation
         if not o.exists:
             vs.append(Violation(prop, '%s:output-missing:%s:%s' % (prop, o.kind, o.comp), 'closed output %s does not exist under its final name' % o.id, {'case': case, 'output': o.id}))
             continue
@@ -366,8 +372,9 @@ def judge_times(prop, case, outs, docs):
 def judge_rotation(prop, case, res, outs, exp_outputs, docs):
     """C13: every output closed by rotation is complete by itself and receives no further bytes afterwards"""
     vs = []
+    void = {x['id'] for x in exp_outputs if x.get('void')}
     for o in outs:
-        if not o.exists:
+        if not o.exists or o.id in void:
             continue
         if o.raw is not None and (o.snap_size != len(o.raw) or o.snap_fnv != fnv64(o.raw)) and len(o.raw) < 4000000:
             vs.append(Violation(prop, '%s:bytes-after-close:%s' % (prop, o.closed_by), 'output %s changed after the call that closed it (size %s -> %d)' % (o.id, o.snap_size, len(o.raw)), {'case': case, 'output': o.id}))
